@@ -23,7 +23,10 @@ import (
 	"google.golang.org/protobuf/encoding/prototext"
 	"google.golang.org/protobuf/encoding/protowire"
 	"google.golang.org/protobuf/proto"
+	"google.golang.org/protobuf/reflect/protodesc"
 	"google.golang.org/protobuf/reflect/protoreflect"
+	"google.golang.org/protobuf/reflect/protoregistry"
+	"google.golang.org/protobuf/types/dynamicpb"
 	"google.golang.org/protobuf/types/descriptorpb"
 	"google.golang.org/protobuf/types/known/durationpb"
 	"google.golang.org/protobuf/types/known/structpb"
@@ -371,6 +374,14 @@ func (d *Driver) dispatchOne(fl, key string, mk func() interface{}, mkOther func
 		e.Same = b2i(err == nil && s == rt.text(mk()))
 	})
 	finish(e, err)
+	// a message that implements encoding.TextMarshaler renders itself (result and error)
+	e = ev("MarshalTextSelf")
+	guard(&e.St, &e.Note, func() {
+		s1, err1 := csproto.MarshalText(&textSelf{Inner: mk(), Text: "self:" + key})
+		_, err2 := csproto.MarshalText(&textSelf{Inner: mk(), Fail: true})
+		e.Same = b2i(err1 == nil && s1 == "self:"+key && err2 == errTextSelf)
+	})
+	finish(e, nil)
 	// gRPC codec
 	e = ev("GrpcMarshal")
 	err = nil
@@ -397,6 +408,22 @@ func (d *Driver) dispatchOne(fl, key string, mk func() interface{}, mkOther func
 }
 
 type notAMessage struct{ X int }
+
+// textSelf wraps a message and renders itself: csproto.MarshalText has to delegate to it
+type textSelf struct {
+	Inner interface{}
+	Text  string
+	Fail  bool
+}
+
+var errTextSelf = fmt.Errorf("textSelf: refusing")
+
+func (t *textSelf) MarshalText() ([]byte, error) {
+	if t.Fail {
+		return nil, errTextSelf
+	}
+	return []byte(t.Text), nil
+}
 
 // unsupportedOne records the dispatcher calls for a value no runtime owns.
 func (d *Driver) unsupportedOne(name string, v interface{}) {
@@ -828,6 +855,82 @@ func (d *Driver) FamExt(scriptFile string, maxScripts int) {
 			d.emitD(e)
 		}
 	}
+	// values no runtime owns, with a real descriptor of each flavour: false / error / no-op, ClearExtension panics (documented)
+	for _, a := range exts {
+		if a.Set != "default" {
+			continue
+		}
+		for name, v := range map[string]interface{}{"struct": &notAMessage{X: 1}, "nil": nil, "int": 42} {
+			e := &DEv{C: "extuns", Fl: "none", Key: a.Key + " x " + name}
+			guard(&e.St, &e.Note, func() {
+				x := a.Exts["string"]
+				e.Has0 = b2i(!csproto.HasExtension(v, x))
+				_, gerr := csproto.GetExtension(v, x)
+				e.Geterr = b2i(gerr != nil)
+				e.Seterr = b2i(csproto.SetExtension(v, x, d.extGoValue(a, x, "string", 1)) != nil)
+				func() {
+					defer func() {
+						if recover() != nil {
+							e.Same = 0
+						}
+					}()
+					e.Same = 1
+					csproto.ClearAllExtensions(v) // documented no-op
+				}()
+				func() {
+					defer func() {
+						if recover() != nil {
+							e.X1 = 1
+						}
+					}()
+					csproto.ClearExtension(v, x) // documented to panic on invalid parameters
+				}()
+				calls := 0
+				rerr := csproto.RangeExtensions(v, func(interface{}, string, int32) error { calls++; return nil })
+				e.Errc = b2i(rerr != nil && calls == 0)
+			})
+			if e.St == "" {
+				e.St = "ok"
+			}
+			d.emitD(e)
+		}
+	}
+	// ExtensionFieldNumber: a dynamically built extension type (plain protoreflect.ExtensionType) and values that are no descriptor
+	{
+		e := &DEv{C: "extnum", Fl: "none", Key: "dynamic"}
+		guard(&e.St, &e.Note, func() {
+			xt := dynExtType(54321)
+			n, err := csproto.ExtensionFieldNumber(xt)
+			e.Same = b2i(err == nil && n == 54321)
+			e.Errc = 1
+			for _, junk := range []interface{}{nil, 42, "x", &notAMessage{}} {
+				if n, err := csproto.ExtensionFieldNumber(junk); err == nil || n != 0 {
+					e.Errc = 0
+				}
+			}
+		})
+		if e.St == "" {
+			e.St = "ok"
+		}
+		d.emitD(e)
+	}
+}
+
+// dynExtType builds an extension of google.protobuf.MessageOptions at run time (no generated descriptor value).
+func dynExtType(num int32) protoreflect.ExtensionType {
+	fd := &descriptorpb.FileDescriptorProto{
+		Name: proto.String("verif_dynext.proto"), Package: proto.String("verif.dynext"), Syntax: proto.String("proto2"),
+		Dependency: []string{"google/protobuf/descriptor.proto"},
+		Extension: []*descriptorpb.FieldDescriptorProto{{
+			Name: proto.String("dyn_opt"), Number: proto.Int32(num), Label: descriptorpb.FieldDescriptorProto_LABEL_OPTIONAL.Enum(),
+			Type: descriptorpb.FieldDescriptorProto_TYPE_INT32.Enum(), Extendee: proto.String(".google.protobuf.MessageOptions"),
+		}},
+	}
+	f, err := protodesc.NewFile(fd, protoregistry.GlobalFiles)
+	if err != nil {
+		panic(err)
+	}
+	return dynamicpb.NewExtensionType(f.Extensions().Get(0))
 }
 
 // zeroSizeCache clears the size-cache word of a generated struct.
@@ -1199,6 +1302,29 @@ func (d *Driver) FamJSON(perType int) {
 			}
 		})
 		d.emitD(e)
+	}
+	// non-nil values no runtime owns: an error in both directions, never a panic
+	for name, v := range map[string]interface{}{"struct-ptr": &notAMessage{X: 1}, "struct-value": notAMessage{1}, "int": 7, "string": "x"} {
+		for _, dir := range []string{"marshal", "unmarshal"} {
+			if dir == "unmarshal" && name != "struct-ptr" {
+				continue // values that are not pointers are judged above
+			}
+			e := &DEv{C: "json", Dir: dir, Fl: "none", Key: "unsupported/" + name, Nilmsg: 2}
+			guard(&e.St, &e.Note, func() {
+				var err error
+				if dir == "marshal" {
+					_, err = csproto.JSONMarshaler(v, csproto.JSONIndent("  ")).MarshalJSON()
+				} else {
+					err = csproto.JSONUnmarshaler(v, csproto.JSONAllowUnknownFields(true)).UnmarshalJSON([]byte("{}"))
+				}
+				if err != nil {
+					e.St = "err"
+				} else {
+					e.St = "ok"
+				}
+			})
+			d.emitD(e)
+		}
 	}
 }
 
